@@ -301,9 +301,16 @@ impl Debugger {
             }
             match self.single_step_instruction()? {
                 Some(super::StopReason::SignalStop(_, sign)) => {
+                    // the step ends here: the temporary watchpoint must not stay armed
+                    if let Some(wp) = waiter_wp {
+                        self.remove_watchpoint_by_addr(wp.address)?;
+                    }
                     return Ok(AsyncStepResult::signal_interrupt(sign));
                 }
                 Some(super::StopReason::Watchpoint(pid, addr, ty)) => {
+                    if let Some(wp) = waiter_wp {
+                        self.remove_watchpoint_by_addr(wp.address)?;
+                    }
                     return Ok(AsyncStepResult::wp_interrupt(pid, addr, ty));
                 }
                 _ => {}
